@@ -1,7 +1,143 @@
-/- line-protocol handler for model "arith" (stub until its model is built) -/
+/- line-protocol handler for model "arith" (C12): same ops and canonical output as
+   harness/inproc/h_arith.c and h_arith_h2.c -/
+import LtVerif.Model.Arith
 namespace Driver
+open LtVerif LtVerif.B LtVerif.Arith
+
+private def ubStr (w : String) : String := "ub:" ++ w.replace " " "_"
+
+private def fnv16 (vals : Array Nat) (upto : Nat) : Nat := Id.run do
+  let mut h : Nat := 2166136261
+  for i in [0:upto] do
+    let v := vals.getD i 0
+    h := ((h ^^^ (v % 256)) * 16777619) % 4294967296
+    h := ((h ^^^ (v / 256 % 256)) * 16777619) % 4294967296
+  return h
+
+private def hoffOut (init0 : Nat) (block : Bytes) : String :=
+  match hoffScan init0 block with
+  | .ub w => ubStr w
+  | .ok (ret, st) =>
+    let arr0 : Array Nat := (Array.replicate 8192 65535).set! 0 (st.cnt % 65536) |>.set! 1 0
+    let arr := st.writes.foldl (fun (a : Array Nat) (iv : Nat × Nat) => a.set! iv.1 (iv.2 % 65536)) arr0
+    let maxidx := Nat.min 8191 (if ret ≠ 0 then st.cnt + 1 else st.cnt)
+    toString ret ++ " " ++ toString (st.cnt % 65536) ++ " " ++ toString maxidx ++ " " ++
+      toString (fnv16 arr (maxidx + 1)) ++ " clean"
+
+private def ckOut (gw : Bool) : CkOut → String
+  | .ub w => ubStr w
+  | .err s => if gw then "err" else "err " ++ toString s
+  | .unmodelled => "unmodelled"
+  | .ok te moved rest _ =>
+    if gw then "ok te=" ++ toString te ++ " out=" ++ toString moved ++ " done=0"
+    else "ok te=" ++ toString te ++ " in=" ++ toString moved ++ " rest=" ++ toString rest ++ " len=-1"
+
+private def bufOps (ops : List String) : String :=
+  let step (acc : Option Buf × List String) (op : String) : Option Buf × List String :=
+    match acc.1 with
+    | none => acc
+    | some b =>
+      let k := op.toList.headD ' '
+      let n := (op.drop 1).toNat?.getD 0
+      let r : BufOut :=
+        if k = 'p' then prepareAppend b n
+        else if k = 'c' then commit b n
+        else if k = 'e' then extend b n
+        else if k = 'y' then prepareCopy b n
+        else if k = 't' then .ok (truncate b (n % 4294967296))
+        else if k = 'x' then .ok (clear b)
+        else if k = 'f' then .ok { used := 0, size := 0 }
+        else if k = 'R' then bufRealloc b n
+        else .ok b
+      match r with
+      | .abort => (none, acc.2 ++ ["abort"])
+      | .ok b' => (some b', acc.2 ++ [toString b'.used ++ "/" ++ toString b'.size])
+  let (_, outs) := ops.foldl step (some { used := 0, size := 0 }, [])
+  String.intercalate " " outs
+
+private def rngOut (len : Int) (s : Bytes) : String :=
+  let rs := Range.parse (s.takeWhile (· ≠ 0)) len
+  String.intercalate " " (toString rs.length :: rs.map fun r => toString r.1 ++ "-" ++ toString r.2)
+
+private def h2cOut (fsize : Nat) (buf : Bytes) : String :=
+  if buf.length < 9 || 9 + u24 buf 0 > buf.length then "bad-op" else
+  let flen0 := u24 buf 0
+  let padded := has (buf.getD 4 0) flagPadded
+  let padOrig : String := if padded && flen0 ≠ 0 then toString (buf.getD 9 0).toNat else "-1"
+  let line (ret flen : Nat) (pad ga : String) (clen : Nat) : String :=
+    "ret=" ++ toString ret ++ " flen=" ++ toString flen ++ " pad=" ++ pad ++ " goaway=" ++ ga ++
+      " clen=" ++ toString clen
+  match h2Cont fsize buf with
+  | .ub w => ubStr w
+  | .incomplete need calm => line need flen0 padOrig (if calm then "-1" else "-") buf.length
+  | .goaway code => line 0 flen0 padOrig (toString code) buf.length
+  | .merged m out calm =>
+    line m (u24 out 0) (if padded && flen0 ≠ 0 then toString (out.getD 9 0).toNat else "-1")
+      (if calm then "-1" else "-") out.length
+
+private def h2dOut (frame : Bytes) : String :=
+  if frame.length < 9 then "bad-op" else
+  let len := frame.length - 9
+  let flags := frame.getD 4 0
+  let id := u31be frame 5
+  let errLine := "rc=0 goaway=1 in=0 rest=" ++ toString frame.length ++ " st=6"
+  if id = 0 || 1 < id then errLine
+  else
+    match h2DataLen len flags (frame.getD 9 0).toNat with
+    | .ub w => ubStr w
+    | .protoErr => errLine
+    | .ok _ alen =>
+      "rc=1 goaway=- in=" ++ toString alen ++ " rest=0 st=" ++ (if has flags flagEndStream then "5" else "3")
 
 def arithLine : List String → String
+  | ["s64", h] =>
+    match ofHex h with
+    | some v =>
+      match strtoI64 v with
+      | .ok (rv, i) => toString rv ++ " " ++ toString i
+      | .ub w => ubStr w
+    | none => "bad-op"
+  | ["ck1", ms, bin, h] =>
+    match ms.toNat?, bin.toNat?, ofHex h with
+    | some m, some b, some d => ckOut false (ck1 m (b : Int) d)
+    | _, _, _ => "bad-op"
+  | ["ck2", h] =>
+    match ofHex h with
+    | some d => ckOut true (ck2 d)
+    | none => "bad-op"
+  | ["hoff", i0, h] =>
+    match i0.toNat?, ofHex h with
+    | some i, some b => hoffOut i b
+    | _, _ => "bad-op"
+  | ["rng", len, h] =>
+    match len.toNat?, ofHex h with
+    | some l, some s => if l = 0 then "bad-op" else rngOut (l : Int) s
+    | _, _ => "bad-op"
+  | "buf" :: ops => if ops.isEmpty then "bad-op" else bufOps ops
+  | ["ckr", n, x, e] =>
+    match n.toNat?, x.toNat?, e.toNat? with
+    | some n, some x, some e =>
+      match ckReallocU32 n x e with
+      | some b => "ok " ++ toString b
+      | none => "abort"
+    | _, _, _ => "bad-op"
+  | ["h2c", fs, h] =>
+    match fs.toNat?, ofHex h with
+    | some f, some b => h2cOut f b
+    | _, _ => "bad-op"
+  | ["h2h", cid, _, h] =>
+    match cid.toNat?, ofHex h with
+    | some c, some f =>
+      if f.length < 9 then "bad-op" else
+      match h2HeadersEarly c f with
+      | .ub w => ubStr w
+      | .ok true => "early"
+      | .ok false => "pass"
+    | _, _ => "bad-op"
+  | ["h2d", h] =>
+    match ofHex h with
+    | some f => h2dOut f
+    | none => "bad-op"
   | _ => "bad-op"
 
 end Driver
